@@ -7,6 +7,7 @@ def M(prop, name, file, old, new, rule=None, kind="break", first=False):
 
 EP = "src/ps_endpointer.c"
 # ---- C15 ----------------------------------------------------------------------
+M("C15", "end_stream: trailing frame whenever the queue is empty", EP, "    if (ep_empty(ep) && ep->speech_end == ep->qstart_time) {", "    if (ep_empty(ep)) {", "PAIR.end_stream")
 M("C15", "ep: revert index fix", EP, """        do {
             count += ep->is_speech[i++];
             i = i % ep->maxlen;
@@ -263,6 +264,7 @@ M("C01", "benign: find_exit reorder disjuncts", FS, """            if ((!final)
 DC = "src/decoder.c"
 AC = "src/acmod.c"
 # ---- C03 ----------------------------------------------------------------------
+M("C03", "seg_next: hands out one entry too many", "src/fsg_search.c", "    if (++itor->cur == itor->n_hist) {", "    if (++itor->cur > itor->n_hist) {", "PROV.S6-order")
 M("C03", "seg: sf without +1", FS, "seg->sf = ph ? fsg_hist_entry_frame(ph) + 1 : 0;", "seg->sf = ph ? fsg_hist_entry_frame(ph) : 0;", "PROV.S1-times")
 M("C03", "seg: ef from pred", FS, "seg->ef = fsg_hist_entry_frame(hist_entry);", "seg->ef = ph ? fsg_hist_entry_frame(ph) : 0;", "PROV.S1-times")
 M("C03", "seg: clamp inverted", FS, "    if (seg->sf > seg->ef)\n        seg->sf = seg->ef;", "    if (seg->sf < seg->ef)\n        seg->sf = seg->ef;", "PROV.S1-times")
